@@ -137,7 +137,12 @@ pub struct Case {
     /// caller - like std's read_to_string / read_to_end - simply reads again
     #[serde(default)]
     pub interrupts: Vec<u16>,
+    /// index into MEDIA_TYPES: the media type in front of the charset parameter plays no part in choosing the charset
+    #[serde(default)]
+    pub media: u8,
 }
+
+pub const MEDIA_TYPES: &[&str] = &["text/html", "text/plain", "application/json", "application/problem+json", "Application/JSON", "application/xml", "text/event-stream", "application/octet-stream"];
 
 pub struct C18;
 
@@ -310,9 +315,9 @@ identical result across segmentations and reader styles (all bodies), never Err.
             prop_oneof![3 => Just(None), 1 => (0..n).prop_map(|e| Some(Some(e))), 1 => Just(Some(None))],
             api,
             crate::props::c01::framing_strategy(),
-            (proptest::collection::vec(seg(), 1..4), prop_oneof![4 => Just(0u8), 1 => Just(1u8), 1 => Just(2u8)], prop_oneof![4 => Just(vec![]), 1 => proptest::collection::vec(any::<u16>(), 1..3)]),
+            (proptest::collection::vec(seg(), 1..4), prop_oneof![4 => Just(0u8), 1 => Just(1u8), 1 => Just(2u8)], prop_oneof![4 => Just(vec![]), 1 => proptest::collection::vec(any::<u16>(), 1..3)], prop_oneof![1 => Just(0u8), 2 => 1u8..MEDIA_TYPES.len() as u8]),
         )
-            .prop_map(|(body, ct, session_default, request_default, api, framing, (segs, request_ct, interrupts))| Case {
+            .prop_map(|(body, ct, session_default, request_default, api, framing, (segs, request_ct, interrupts, media))| Case {
                 body,
                 ct,
                 session_default,
@@ -322,6 +327,7 @@ identical result across segmentations and reader styles (all bodies), never Err.
                 segs,
                 request_ct,
                 interrupts,
+                media,
             })
             .boxed()
     }
@@ -332,17 +338,19 @@ identical result across segmentations and reader styles (all bodies), never Err.
         let body = case.body.bytes();
         // the body is the same in every variant; when the *content* charset should match the header, bias: half of the
         // Label cases reuse the body's own encoding (decided by the label index parity) so valid text is common
+        let media = MEDIA_TYPES[case.media as usize % MEDIA_TYPES.len()];
+        ctx.label_if(case.media as usize % MEDIA_TYPES.len() != 0, "media-type-other-than-text/html");
         let (ct_value, header_enc): (Option<String>, Option<Charset>) = match &case.ct {
             ContentType::Absent => (None, None),
-            ContentType::NoParam => (Some("text/html".into()), None),
+            ContentType::NoParam => (Some(media.into()), None),
             ContentType::Label(e, l, style, blank) => {
                 let ei = if l % 2 == 0 { case.body.enc } else { *e } as usize % t.len();
                 let labels = t[ei].1;
                 let label = style_label(labels[(*l as usize / 2) % labels.len()], *style);
-                (Some(format!("text/html;{}charset={label}", if *blank { " " } else { "" })), Some(t[ei].0))
+                (Some(format!("{media};{}charset={label}", if *blank { " " } else { "" })), Some(t[ei].0))
             }
             ContentType::Unknown(i, blank) => (
-                Some(format!("text/html;{}charset={}", if *blank { " " } else { "" }, UNKNOWN_LABELS[*i as usize % UNKNOWN_LABELS.len()])),
+                Some(format!("{media};{}charset={}", if *blank { " " } else { "" }, UNKNOWN_LABELS[*i as usize % UNKNOWN_LABELS.len()])),
                 None,
             ),
         };
